@@ -147,8 +147,6 @@ func (cr *cursor) applyWordBoundaryRules(i int) (isWordBoundary, removePrevNoExt
 		isWordBoundary = true // Rule WB3a
 	} else if current == ucd.WordBreakNewlineCRLF {
 		isWordBoundary = true // Rule WB3b
-	} else if cr.prev == 0x200D && cr.isExtentedPic {
-		isWordBoundary = false // Rule WB3c
 	} else if prev == ucd.WordBreakWSegSpace &&
 		current == ucd.WordBreakWSegSpace && isAfterNoExtend {
 		isWordBoundary = false // Rule WB3d
@@ -186,6 +184,11 @@ func (cr *cursor) applyWordBoundaryRules(i int) (isWordBoundary, removePrevNoExt
 			prev == ucd.WordBreakSingle_Quote) {
 		isWordBoundary = false    // Rule WB11
 		removePrevNoExtend = true // Rule WB12
+	} else if cr.prev == 0x200D && cr.isExtentedPic {
+		// Rule WB3c; since all the rules above also prohibit the break,
+		// it is tested here so that WB6, WB7b and WB12 are still applied
+		// to the previous boundary
+		isWordBoundary = false
 	} else if triggerWB15_16 {
 		isWordBoundary = false // Rule WB15 and WB16
 	} else {
